@@ -183,7 +183,8 @@ type Event struct {
 	CC [][2]int `json:"cc,omitempty"`
 	H2 int      `json:"h2,omitempty"`
 
-	commit *ucon.CommitEvent
+	commit *ucon.CommitEvent              // the posted event itself: its maps are the references the server would pack later
+	update *ucon.UpdateExistedHeaderEvent
 }
 
 type sentinel struct{}
@@ -275,7 +276,8 @@ func decodeEvent(x interface{}) Event {
 	case ucon.RoundIndexChangeEvent:
 		return Event{K: "change", R: e.Round.Uint64(), I: e.RoundIndex, H: hid(e.BlockHash), P: prioID(e.Priority)}
 	case ucon.UpdateExistedHeaderEvent:
-		return Event{K: "update", R: e.Round.Uint64(), I: e.RoundIndex, H: hid(e.BlockHash), CP: votesOf(e.ChamberPrecommits), HP: votesOf(e.HousePrecommits)}
+		u := e
+		return Event{K: "update", R: e.Round.Uint64(), I: e.RoundIndex, H: hid(e.BlockHash), CP: votesOf(e.ChamberPrecommits), HP: votesOf(e.HousePrecommits), update: &u}
 	case staking.Evidence:
 		var d staking.EvidenceDoubleSignV5
 		if err := rlp.DecodeBytes(e.Data, &d); err != nil {
@@ -727,6 +729,10 @@ type oracle struct {
 	stale bool // some counted vote carried an invalid VRF credential (finding class, real mode)
 	realVerified int
 	sent         map[tkey]int // votes posted per (round, index, kind) over the whole history, restarts included
+	// every CommitEvent / UpdateExistedHeaderEvent seen so far, kept by reference
+	// together with the value of its vote sets at announcement time
+	retained []Event
+	mutated  map[int]bool
 }
 
 func newOracle(h *History, im *impl) *oracle {
@@ -787,7 +793,60 @@ func (o *oracle) wasCounted(m *MsgOp, ob *Obs) bool {
 
 // before is called before the implementation runs the op (it uses only the op
 // and earlier observations); after is called with the op's observations.
+// recheckRetained looks at every announced event again, as Server.commit /
+// updateBlockHeader do when they pack it later on another goroutine: the vote
+// sets must still be exactly the ones that were counted at announcement time.
+func (o *oracle) recheckRetained(when string) {
+	same := func(a, b [][2]int) bool {
+		if len(a) != len(b) {
+			return false
+		}
+		for i := range a {
+			if a[i] != b[i] {
+				return false
+			}
+		}
+		return true
+	}
+	for k := range o.retained {
+		e := &o.retained[k]
+		if o.mutated[k] {
+			continue
+		}
+		var cp, hp, cc [][2]int
+		if e.commit != nil {
+			cp, hp, cc = votesOf(e.commit.ChamberPrecommits), votesOf(e.commit.HousePrecommits), votesOf(e.commit.ChamberCerts)
+		} else if e.update != nil {
+			cp, hp = votesOf(e.update.ChamberPrecommits), votesOf(e.update.HousePrecommits)
+		} else {
+			continue
+		}
+		if same(cp, e.CP) && same(hp, e.HP) && same(cc, e.CC) {
+			continue
+		}
+		if o.mutated == nil {
+			o.mutated = map[int]bool{}
+		}
+		o.mutated[k] = true
+		detail := ""
+		if e.commit != nil {
+			if uv, err := o.im.v.PackVotes(*e.commit, params.LookBackPos); err == nil {
+				thrP, _ := o.caseThr()
+				detail = fmt.Sprintf("; packed now, the precommit set re-counts to %d (quorum %d)", o.recount(uv.ChamberCommitters, *e.commit, 1), goQuorum(thrP, true))
+			}
+		}
+		o.hit(fmt.Sprintf("announced_vote_set_changed: the %s event for block %d at (%d,%d) is packed later from the event it was posted with; %s its vote sets are no longer the ones counted at announcement (precommits %v -> %v, house %v -> %v, certificates %v -> %v)%s",
+			e.K, e.H, e.R, e.I, when, e.CP, cp, e.HP, hp, e.CC, cc, detail))
+	}
+}
+
 func (o *oracle) step(op *Op, ob *Obs) {
+	o.recheckRetained("after a later op")
+	for _, e := range ob.Events {
+		if e.commit != nil || e.update != nil {
+			o.retained = append(o.retained, e)
+		}
+	}
 	var trigThr uint64
 	trigOK := false
 	switch op.K {
@@ -1193,6 +1252,7 @@ func runHistory(h *History) runResult {
 		or.step(&h.Ops[k], &ob)
 		res.obs = append(res.obs, ob)
 	}
+	or.recheckRetained("at the end of the history")
 	res.hits = or.hits
 	res.stale = or.stale
 	res.realVerified = or.realVerified
@@ -1765,6 +1825,18 @@ func genFlow(r *vf.Rng) History {
 			plain(t, 1+r.Intn(g.nS), g.lead)
 		}
 	}
+	if r.Chance(50) {
+		// after the (possible) commit, before the server would pack it: counted
+		// members double-vote in the committed step, honest late votes arrive
+		for _, t := range phases[1:] {
+			for k := 0; k < 1+r.Intn(2); k++ {
+				plain(t, 1+r.Intn(g.nS), other)
+			}
+			if r.Chance(50) {
+				plain(t, 1+r.Intn(g.nS), g.lead)
+			}
+		}
+	}
 	g.ctx(4)
 	g.idx++
 	g.ctx(0)
@@ -1943,6 +2015,15 @@ func genReal(r *vf.Rng) History {
 			}
 			if pi == equivAt && k == n/2 {
 				vote(phases[r.Intn(pi+1)], ord[r.Intn(k+1)], other, true)
+			}
+		}
+	}
+	if r.Chance(50) {
+		// double votes of counted members and late votes after the (possible) commit
+		for _, t := range phases[1:] {
+			vote(t, 1+r.Intn(n), other, true)
+			if r.Chance(50) {
+				vote(t, 1+r.Intn(n), lead, true)
 			}
 		}
 	}
